@@ -18,6 +18,7 @@ def pSel : P NameSel := do
   let t ← tok
   if t = "sym" then pure .symbol
   else if t = "id" then pure .ident
+  else if t = "attr:sequence_name" then pure .seqname
   else if t.startsWith "lit:" then pure (.literal (t.toList.drop 4))
   else throw s!"sel? {t}"
 
